@@ -1416,7 +1416,19 @@ func (r *room) doRedefine() {
 		r.desc["max-clients"] = nv
 	}
 	for _, gn := range r.gnames {
-		writeGroupFile(gn, r.desc)
+		// the new version must be distinguishable from the old one by size or modification time (the statement's premise);
+		// on a busy virtual machine the file system's clock can stall for longer than any fixed wait: write again until
+		// the modification time has moved
+		fn := filepath.Join(group.Directory, filepath.FromSlash(gn)+".json")
+		old, _ := os.Stat(fn)
+		for attempt := 0; attempt < 50; attempt++ {
+			writeGroupFile(gn, r.desc)
+			cur, _ := os.Stat(fn)
+			if old == nil || cur == nil || cur.Size() != old.Size() || !cur.ModTime().Equal(old.ModTime()) {
+				break
+			}
+			time.Sleep(5 * time.Millisecond)
+		}
 	}
 	r.opf("max-clients %d -> %d in both definitions", r.cfg.maxClients, nv)
 	r.cfg.maxClients = nv
